@@ -138,6 +138,34 @@ func (h H) promotionGate(rule string) {
 			}
 		}
 	}
+	// a restarted round is unfinished: begin() must clear what finished() tests
+	bg := h.fn("raft:(*round).begin")
+	fin := h.fn("raft:(*round).finished")
+	tested := map[string]bool{}
+	core.Instrs(fin, func(in ssa.Instruction) {
+		if fa, ok := in.(*ssa.FieldAddr); ok {
+			tested[structOfT(fa.X.Type()).Field(fa.Field).Name()] = true
+		}
+	})
+	cleared := map[string]bool{}
+	bfi := h.P.Info(bg)
+	core.Instrs(bg, func(in ssa.Instruction) {
+		if st, ok := in.(*ssa.Store); ok {
+			if fa, ok := st.Addr.(*ssa.FieldAddr); ok {
+				if c, isC := st.Val.(*ssa.Const); isC && c.Value == nil {
+					cleared[structOfT(fa.X.Type()).Field(fa.Field).Name()] = true
+				}
+				_ = bfi
+			}
+		}
+	})
+	okReset := len(tested) > 0
+	for f := range tested {
+		if !cleared[f] {
+			okReset = false
+		}
+	}
+	h.C.Check(rule+" round-restart", "(*round).begin", okReset, h.fpos(bg), fmt.Sprintf("begin() starts a new round but leaves the fields finished() tests untouched (%v): a restarted round counts as finished at once, so the promotion gate passes without the node catching up again", keys(tested)))
 	h.C.Floor(rule+" (promotion paths)", nProm, 1)
 	h.C.Floor(rule+" (remove paths)", nRem, 1)
 	h.C.Floor(rule+" (round.finish sites)", nFin, 1)
@@ -206,4 +234,13 @@ func (h H) leaderYields(rule string) {
 		}
 	})
 	h.C.Floor(rule+" (effects of onTimeoutNowRequest)", nEff, 2)
+}
+
+func keys(m map[string]bool) []string {
+	var out []string
+	for k := range m {
+		out = append(out, k)
+	}
+	sortStrings(out)
+	return out
 }
